@@ -42,6 +42,9 @@ CHECKS = {
  "C13": ("exploration", "E1", "bounded-exhaustive enumeration of declared signatures x supplied tensor sets through the real Model.Run vs the accept predicate",
          "Every one-input signature of rank 1..3 (thorough 1..4) with each dimension fixed(2), fixed(3), symbolic or unspecified is run against a supplied tensor of EVERY shape of rank 0..4 (0..5); Run must fail (no outputs, inputs untouched) exactly when the rank or a fixed dimension differs and succeed otherwise; multi-input signatures with every subset of names missing, permuted tensors, extra names, and inputs shadowed by initializers; the introspection accessors must report exactly what Run enforces, axis by axis.",
          "Trusted: the three-line accept predicate; the ONNX ValueInfoProto builder of the harness.", "DESIGN.md §3 C13"),
+ "C15": ("model_checking", "E1+E3", "exhaustive enumeration of the finite gate space (55 operators x input counts x dtype placements x nil) on the real ValidateInputs, plus exhaustive interleavings of <Get, Init, Apply> lookup histories against isolated results",
+         "For every name of opset13.GetOpNames(): every input count 0..max+2 and dtype placement (full 15^n product for arity <= 2; every homogeneous row with all single- and a fixed menu of two-position deviations otherwise) must be rejected with an *ops.InputError exactly when the operator's own declaration says so - never a panic, never an out-of-range index into a short constraint table - and accepted lists must come back padded with nil to the maximum with the supplied tensors pointer-identical and untouched. 120 unregistered names must give ErrUnsupportedOperator. For 22 operator/attribute specs all 20 interleavings of two lookups and (thorough: all 1680, quick: every 7th) of three lookups are executed; each Apply must equal its isolated result.",
+         "Trusted: the operator's own GetMin/GetMax/GetInputTypeConstraints as the declaration the gate must enforce; isolated execution as the differential oracle for lookup independence.", "DESIGN.md §3 C15"),
 }
 NA_REASON = "check not built yet in this session (see DESIGN.md §7 order of construction); decidable by bounded exhaustive exploration, to be claimed once its explorer exists"
 def main():
